@@ -6,7 +6,9 @@ patch=$(realpath "$1"); id=$2; tier=${3:-quick}
 cd /repo || exit 2
 if ! git diff --quiet; then echo "repo dirty"; exit 2; fi
 git apply "$patch" || { echo "patch does not apply"; exit 2; }
+cp /verif/evidence/$id.json /tmp/evidence-$id.bak 2>/dev/null    # a run against a mutated tree must not leave its evidence behind
 cd /verif && timeout 3000 /venv/bin/python run.py "$id" --tier "$tier" 2>&1 | tail -${TAILN:-6}
 rc=${PIPESTATUS[0]}
 git -C /repo checkout -- . 
+cp /tmp/evidence-$id.bak /verif/evidence/$id.json 2>/dev/null
 echo "exit=$rc"
